@@ -26,6 +26,8 @@ def correspondence(ctx):
     for _ in range(2000 if ctx.tier == 'quick' else 50000):
         n = ctx.rng.randrange(4, 12)
         cases.append(f'rules|nick|case|{hexs([ctx.rng.choice(alpha + mapped[::37]) for _ in range(n)])}')
+    for s_ in long_strings(ctx, alpha + mapped[::53], (60 if ctx.tier == 'quick' else 3000)):
+        cases.append(f'rules|um|case|{hexs(s_)}')
     res = run_cases(cases, ctx.work)
     mset = set(mapped)
 
